@@ -16,16 +16,22 @@ EXTENDS Naturals, Sequences, FiniteSets, TLC, Json, IOUtils
 VARIABLES i, verdict
 Trace == ndJsonDeserialize(IOEnv.TRACE_FILE)
 Random == {"kwiksort"}
+Mutators == {"mut_remove_element", "mut_remove_rate"}
 
 Verdict(rec) ==
     LET n == Len(rec.calls) IN
     IF rec.out # "ok" THEN <<"skip", rec.out>>
     ELSE IF Len(rec.snaps) # n + 1 \/ Len(rec.shared) # n \/ Len(rec.fresh) # n THEN <<"skip", "malformed-record">>
-    ELSE IF \E k \in 1..n : rec.snaps[k + 1].abs # rec.snaps[1].abs THEN <<"viol", "C15:input-modified">>
-    ELSE IF \E k \in 1..n : rec.snaps[k + 1].deep # rec.snaps[1].deep THEN <<"viol", "C15:input-internals-modified">>
-    ELSE IF \E k \in 1..n : rec.calls[k] \notin Random /\ rec.shared[k] # rec.fresh[k]
+    \* every call but a mutator leaves the inputs as they were before it (snaps[k] is taken before call k)
+    ELSE IF \E k \in 1..n : rec.calls[k] \notin Mutators /\ rec.snaps[k + 1].abs # rec.snaps[k].abs
+         THEN <<"viol", "C15:input-modified">>
+    ELSE IF \E k \in 1..n : rec.calls[k] \notin Mutators /\ rec.snaps[k + 1].deep # rec.snaps[k].deep
+         THEN <<"viol", "C15:input-internals-modified">>
+    \* fresh[k]: the same call on fresh copies of the inputs AS THEY ARE NOW (rebuilt from the current rankings)
+    ELSE IF \E k \in 1..n : rec.calls[k] \notin Random \cup Mutators /\ rec.shared[k] # rec.fresh[k]
          THEN <<"viol", "C15:shared-differs-from-fresh">>
-    ELSE IF \E j, k \in 1..n : j < k /\ rec.calls[j] = rec.calls[k] /\ rec.calls[k] \notin Random
+    ELSE IF \E j, k \in 1..n : j < k /\ rec.calls[j] = rec.calls[k] /\ rec.calls[k] \notin Random \cup Mutators
+                               /\ (\A l \in j..k : rec.calls[l] \notin Mutators)
                                /\ rec.shared[j] # rec.shared[k] THEN <<"viol", "C15:not-repeatable">>
     ELSE <<"ok", "session">>
 
